@@ -60,6 +60,14 @@ func mustTmp(id string, t time.Time) *predicate.Predicate {
 	}
 	return p
 }
+// mustParsePred builds predicates the constructors refuse but the parser accepts (the empty identifier).
+func mustParsePred(text string) *predicate.Predicate {
+	p, err := predicate.Parse(text)
+	if err != nil {
+		panic(err)
+	}
+	return p
+}
 func mustLit(t literal.Type, v any) *triple.Object {
 	l, err := literal.DefaultBuilder().Build(t, v)
 	if err != nil {
@@ -89,6 +97,8 @@ func buildVocab() *Vocab {
 		// the Unix epoch (UnixNano()==0), the last nanosecond before it, the last nanosecond of year 9999
 		mustTmp("p", time.Time{}.UTC()), mustTmp("p", time.Unix(0, 0).UTC()),
 		mustTmp("q", time.Date(1969, 12, 31, 23, 59, 59, 999999999, time.UTC)), mustTmp("p", time.Date(9999, 12, 31, 23, 59, 59, 999999999, time.UTC)),
+		// the empty identifier (indices 16, 17)
+		mustParsePred(`""@[]`), mustParsePred(`""@[2010-06-01T00:00:00.0000005Z]`),
 	}
 	v.PredsClean = 8
 	v.Objs = []*triple.Object{
@@ -108,6 +118,8 @@ func buildVocab() *Vocab {
 		triple.NewPredicateObject(v.Preds[8]),
 		// floats that differ by less than 1e-6 (appended: indices above stay stable)
 		mustLit(literal.Float64, 2.5000001), mustLit(literal.Float64, 2.50000005),
+		// empty values (indices 31, 32)
+		mustLit(literal.Text, ""), triple.NewPredicateObject(mustParsePred(`""@[]`)),
 	}
 	v.ObjsClean = 18
 	return v
@@ -166,6 +178,13 @@ func genUniverseX(r *Rand, n int, rich, collide, zones, extreme bool) []TSpec {
 		}
 		if r.Bool() {
 			subj = append(subj, 4+r.Intn(2))
+		}
+		if r.Chance(0.25) {
+			// empty identifiers and texts: an ID extraction or a text value that renders as nothing
+			preds = append(preds, 16+r.Intn(2))
+			if r.Bool() {
+				objs = append(objs, 31+r.Intn(2))
+			}
 		}
 	}
 	if extreme {
